@@ -262,8 +262,8 @@ func c14GenA(r *core.Rng, idx int) c14Case {
 	leaf := func(n string, extra ...*yang.Stmt) *yang.Stmt {
 		return yang.S("leaf", n, append([]*yang.Stmt{yang.S("type", "string")}, extra...)...)
 	}
-	variant := (idx / 3) % 20
-	bad := (idx/3/20)%2 == 0 // (both polarities of every variant: the polarity changes once per cycle over the variants)
+	variant := (idx / 3) % 22
+	bad := (idx/3/22)%2 == 0 // (both polarities of every variant: the polarity changes once per cycle over the variants)
 	c.expect = "accept"
 	if bad {
 		c.expect = "reject"
@@ -297,6 +297,24 @@ func c14GenA(r *core.Rng, idx int) c14Case {
 		}
 		top.Add(yang.S("container", "cf", yang.S("config", "false"), li))
 		c.what = "config true list under config false"
+	case 20: // a refine names its target: a current uses may not refine a deprecated node of a grouping of its module
+		st := "current"
+		if bad {
+			st = core.Pick(r, []string{"deprecated", "obsolete"})
+		}
+		m.Add(yang.S("grouping", "rfg", yang.S("container", "rc", leaf("x", yang.S("status", st)), leaf("y"))))
+		top.Add(yang.S("container", "rfu", yang.S("uses", "rfg", yang.S("refine", "rc/x", yang.S("description", "refined")))))
+		yang.SortSections(m)
+		c.what = "refine of a " + st + " leaf of a grouping of the same module from a current uses"
+	case 21: // ... and so does an augment inside the uses
+		st := "current"
+		if bad {
+			st = core.Pick(r, []string{"deprecated", "obsolete"})
+		}
+		m.Add(yang.S("grouping", "rfg", yang.S("container", "rc", yang.S("status", st), leaf("y"))))
+		top.Add(yang.S("container", "rfu", yang.S("uses", "rfg", yang.S("augment", "rc", leaf("added", yang.S("status", st))))))
+		yang.SortSections(m)
+		c.what = "augment into a " + st + " container of a grouping of the same module from a current uses"
 	case 18: // the key leaf of a config false list is a descendant like any other
 		v := "false"
 		if bad {
